@@ -307,12 +307,46 @@ func (g *tgen) failingOp(rt *rapid.T, db *model.DB) (model.Op, string) {
 			{Table: "nosuch", Reqs: []model.WriteReq{{Put: g.item(rt)}}},
 		}}, class
 	case "batch-bad-key":
-		it := g.item(rt)
-		delete(it, g.s.Hash)
-		other := g.item(rt)
-		return model.Op{Kind: "BatchWrite", Batch: []model.TableBatch{
-			{Table: g.s.Table, Reqs: []model.WriteReq{{Put: other}, {Put: it}}},
-		}}, class
+		// valid puts and deletes of distinct keys plus one malformed request
+		// (put or delete, key attribute missing or of the wrong type) at a
+		// random position
+		var reqs []model.WriteReq
+		seen := map[string]bool{}
+		n := rapid.IntRange(1, 4).Draw(rt, "batchValid")
+		for i := 0; i < n; i++ {
+			it := g.item(rt)
+			k := t.KeyItem(it)
+			if ck := model.CanonItem(k); !seen[ck] {
+				seen[ck] = true
+				if rapid.Bool().Draw(rt, "validIsDelete") {
+					reqs = append(reqs, model.WriteReq{Delete: k})
+				} else {
+					reqs = append(reqs, model.WriteReq{Put: it})
+				}
+			}
+		}
+		class = "wrong-typed-key"
+		if rapid.Bool().Draw(rt, "badIsMissing") {
+			class = "missing-key-attr"
+		}
+		bk := badKey()
+		class = "batch-bad-key"
+		var bad model.WriteReq
+		if rapid.Bool().Draw(rt, "badIsDelete") {
+			bad = model.WriteReq{Delete: bk}
+		} else {
+			it := g.item(rt)
+			for _, a := range g.s.KeyAttrs() {
+				delete(it, a)
+			}
+			for a, v := range bk {
+				it[a] = v
+			}
+			bad = model.WriteReq{Put: it}
+		}
+		pos := rapid.IntRange(0, len(reqs)).Draw(rt, "badPos")
+		reqs = append(reqs[:pos:pos], append([]model.WriteReq{bad}, reqs[pos:]...)...)
+		return model.Op{Kind: "BatchWrite", Batch: []model.TableBatch{{Table: g.s.Table, Reqs: reqs}}}, class
 	default: // key-attr-update
 		a := rapid.SampledFrom(g.s.KeyAttrs()).Draw(rt, "keyAttr")
 		v := drawKeyValue(rt, g.s.Attrs[a], g.o, "newKeyVal")
